@@ -76,6 +76,7 @@ def work(case):
     strip = lambda x: {k: v for k, v in x.items() if k != "out_bytes"}
     case = dict(case, edits=edits, replies=replies)
     return {"case": case, "res": strip(r), "raw_out": raw_out, "indexed": {"edits": ix, "res": strip(rix)} if rix else None,
+            "heur": {"edits": edits, "res": strip(r)},
             "reply": strip(rr), "raw_reply": raw_rr,
             "sample": {"edits": [(e["target"], e["new"], e["kind"], e.get("comment")) for e in edits], "replies": replies}}
 
